@@ -14,6 +14,7 @@ mod iso;
 mod model;
 mod optics;
 mod oracle;
+mod primer;
 mod mon;
 mod rng;
 
@@ -27,6 +28,11 @@ use std::time::Instant;
 
 fn arg(args: &[String], name: &str) -> Option<String> {
     args.iter().position(|a| a == name).and_then(|i| args.get(i + 1).cloned())
+}
+
+/// the process-state primer (primer.rs) runs before the first case of a shard and then every 8192 cases
+fn primer_due(idx: u64, from: u64, _count: u64) -> bool {
+    !cfg!(miri) && std::env::var_os("VERIF_NO_PRIMER").is_none() && (idx - from) % 8192 == 0
 }
 
 fn main() {
@@ -122,6 +128,9 @@ fn main() {
                 let mut idx = from + count;
                 while idx > from && !stop2.load(Ordering::SeqCst) {
                     idx -= 1;
+                    if primer_due(idx, from, count) {
+                        primer::prime(&mut c2, &mut Rng::for_case(seed, "primer-companion", idx));
+                    }
                     c2.case = idx;
                     c2.cases += 1;
                     let mut r = Rng::for_case(seed, &id2, idx);
@@ -146,6 +155,9 @@ fn main() {
     };
 
     for idx in from..from + count {
+        if cmd != "case" && primer_due(idx, from, count) {
+            primer::prime(&mut ctx, &mut Rng::for_case(seed, "primer", idx));
+        }
         if journal {
             eprintln!("JOURNAL case={}", idx);
             let _ = std::io::stderr().flush();
